@@ -37,7 +37,7 @@ ValOfSpecDef(c) == IF c.k = "defined" THEN << DenDef(c.d, Vals[1]), DenDef(c.d, 
 SameDefinition(x, y) == y.k = "defined" /\ y.v = x.v /\ y.e = x.e /\ (x.e \/ y.d = x.d)
 DefineOnceObs(b, a, act) ==
     act.op = "CF" =>
-        /\ \A m \in FlowNames : b[m].k = "defined" => SameDefinition(b[m], a[m])
+        /\ \A m \in FlowNames : Protected(b[m]) => SameDefinition(b[m], a[m])
         /\ (DefinesSomething(act) /\ b[act.body].k # "defined") =>
                /\ a[act.body].k = "defined" /\ a[act.body].e
                /\ a[act.body].v = << DenDef(act.eqn, Vals[1]), DenDef(act.eqn, Vals[2]) >>
